@@ -271,7 +271,10 @@ def check_property(pid, tier, seed):
         "wall_s": round(time.time() - t0, 1),
         "violations": len(violations),
     }
-    write_json(os.path.join(VERIF, "evidence", f"{pid}.json"), ev)
+    # evidence/<id>.json always describes /repo; a run against another tree (VERIF_REPO=..., used to
+    # try seeded changes) writes its evidence next to the logs instead.
+    ev_dir = os.path.join(VERIF, "evidence") if os.path.realpath(REPO) == "/repo" else os.path.join(VERIF, "logs", "evidence-other-tree")
+    write_json(os.path.join(ev_dir, f"{pid}.json"), ev)
 
     for l in known_lines:
         print(l)
